@@ -224,6 +224,8 @@ fn run_one(s: &Sched) {
 }
 
 pub fn run(a: &Args) -> Value {
+    // `sub`: the tracing subscriber of the process (none / fmt at TRACE level): what the stubs log must not change what they do
+    crate::wire::install_subscriber(&a.opt_str("sub", "none"));
     let mut scheds: Vec<Sched> = a.sched.as_deref().map(crate::load_scheds).unwrap_or_default();
     let mut rng = StdRng::seed_from_u64(a.seed ^ 0x57B5);
     for i in 0..a.random {
